@@ -144,6 +144,18 @@ def run(rng, tier, model_ok):
         u2 = rng.choice([" m", " s", " kg", " km"])
         items.append(("round(%s%s, %d%s)" % (t, u1, n, u2), (lambda x, n, u1: (lambda reply: digits_unit_oracle(reply, x, n, u1)))(x, n, u1)))
         meta.append(("round", n, u1))
+    # a hair away from a tie: closer than binary floating point resolves
+    for n in range(-2, 4):
+        for mth in (-3, 0, 2, 12, 1249):
+            b = Fraction(2 * mth + 1, 2) / Fraction(10) ** n
+            for k in (17, 20, 30):
+                for x in (b - Fraction(1, 10 ** k), b + Fraction(1, 10 ** k)):
+                    t = dec_text(x)
+                    add("round(%s, %d)" % (t, n), "round", x, n, "")
+                    if n == 0:
+                        add("round(%s)" % t, "round", x, None, "")
+                        add("floor(%s)" % t, "floor", x, None, "")
+                        add("ceil(%s)" % t, "ceil", x, None, "")
     def must_fail(reply):
         return None if pipeline.is_error(reply) else {"why": "a wrong number of arguments was accepted"}
     arity_qs = ["ceil( )"]
